@@ -101,7 +101,9 @@ def gate_available():
 def budget(tier):
     if tier == "quick":
         return dict(examples=50, shards=4, min_nontrivial=2)
-    return dict(examples=1500, shards=16)
+    # 400 drawn cases per shard on top of the complete crash-point enumeration (a schedule with
+    # n=400 costs ~1.5 s, a forked-writer schedule ~3-5 s on this VM): ~20 min on 16 cores
+    return dict(examples=400, shards=16)
 
 
 def _scratch():
